@@ -5,8 +5,8 @@ import itertools
 from gen import c16_members
 
 ID = "C16"
-PROPS_FILES = ["Gama/Props/C16.lean", "Gama/Props/C16Ls.lean", "Gama/Props/C16CholSource.lean"]
-LEAN_TARGETS = ["Gama.Props.C16", "Gama.Props.C16Ls", "Gama.Props.C16CholSource"]
+PROPS_FILES = ["Gama/Props/C16.lean", "Gama/Props/C16Ls.lean", "Gama/Props/C16CholSource.lean", "Gama/Props/C16Packed.lean"]
+LEAN_TARGETS = ["Gama.Props.C16", "Gama.Props.C16Ls", "Gama.Props.C16CholSource", "Gama.Props.C16Packed"]
 DRIVERS = ["drv_sparse"]
 RULE = ("a case = one sparsity pattern with values (rows x cols, list of (col,value) per row, build style: plain / roomy / "
         "network (cols unknown, replicate(n,r,c) of the finished matrix) / grow (fill k rows, replicate(n,r,c) into a larger "
